@@ -246,6 +246,42 @@ def run_flat_consumers():
             except BaseException as e:
                 fail(unit, "%s raised %s" % (name, type(e).__name__), ctor=ctor)
 
+def run_distribution_views():
+    """'a memoryview of the object ... is the logical element it stands for - ... value of the survival function': the view of
+    `m.score_distribution` must be the survival function OF m, whatever m's history (taken from another matrix by reverse
+    complement after that one's distribution was computed, asked twice, ...). Oracle: a history-free matrix with the same entries
+    and background, built through the constructor."""
+    global cases
+    def fresh_of(m, width, bg):
+        rows = [list(m[i]) for i in range(width)]
+        vals = {ch: [rows[i]["ACTGN".index(ch)] for i in range(width)] for ch in "ACTGN"}
+        return lightmotif.ScoringMatrix(vals, background=bg)
+    def sf(m):
+        return memoryview(m.score_distribution).tolist()
+    bgs = [None, {"A": 0.5, "C": 0.125, "G": 0.125, "T": 0.25}, {"A": 0.125, "C": 0.25, "G": 0.5, "T": 0.125}, {"A": 0.25, "C": 0.125, "G": 0.125, "T": 0.5}]
+    for bi, bg in enumerate(bgs):
+        for width in (1, 2, 3, 6):
+            vals = {"A": [1.5 - 0.5 * i for i in range(width)], "C": [-2.0 + 0.25 * i for i in range(width)],
+                    "G": [0.5 * ((i * 3) % 4) - 1.0 for i in range(width)], "T": [-0.75 - 0.5 * (i % 3) for i in range(width)]}
+            for history in ("rc-first", "dist-first", "dist-twice"):
+                ctor = "background #%d, width %d, history %s" % (bi, width, history)
+                try:
+                    sm = lightmotif.ScoringMatrix(vals, background=bg)
+                    if history != "rc-first":
+                        sf(sm)
+                    if history == "dist-twice":
+                        sf(sm)
+                    rc = sm.reverse_complement()
+                    cases += 1
+                    for (what, m) in (("the matrix itself", sm), ("its reverse complement", rc), ("the reverse complement of its reverse complement", rc.reverse_complement())):
+                        got, want = sf(m), sf(fresh_of(m, width, bg))
+                        if len(got) != len(want) or any(not (a == b or abs(a - b) <= 1e-12) for a, b in zip(got, want)):
+                            fail("py_distribution_view", "survival-function view of %s differs from that of a fresh matrix with the same entries and background (%d values, first difference at %s)"
+                                 % (what, len(got), next((k for k, (a, b) in enumerate(zip(got, want)) if a != b), "length")), ctor=ctor)
+                            break
+                except BaseException as e:
+                    fail("py_distribution_view", "raised %s: %s" % (type(e).__name__, e), ctor=ctor)
+
 def nrows_seq(st, text):
     return (len(text) + 31) // 32
 
@@ -258,6 +294,7 @@ if MODE in ("sweep", "search"):
     run_edge_views()
     run_protein_views()
     run_flat_consumers()
+    run_distribution_views()
     want = ARG if MODE == "search" and ARG not in ("", "C18") else None
     shown = set()
     for f in fails:
@@ -281,6 +318,7 @@ elif MODE == "replay":
     run_edge_views()
     run_protein_views()
     run_flat_consumers()
+    run_distribution_views()
     still = [f for f in fails if f["unit"] == unit]
     if still:
         print("replay: STILL FAILS: " + still[0]["what"])
